@@ -200,14 +200,15 @@ impl TransformerContext {
 
         // TODO: move following to element::bbox() ?
         if el.name == "use" || el.name == "reuse" {
+            if target_el.has_pending_geometry() {
+                // the target is registered but not positioned yet: the instance itself
+                // must wait and be retried (it would contribute no box otherwise, and
+                // a position which needs the target's size would be left unresolved)
+                return Err(SvgdxError::MissingBoundingBox(target_el.to_string()));
+            }
             if el.has_pending_geometry() {
                 // registered early but not positioned yet: referrers must wait and be retried
                 return Ok(None);
-            }
-            if target_el.has_pending_geometry() {
-                // the target is registered but not positioned yet: the instance itself
-                // must wait and be retried (it would contribute no box otherwise)
-                return Err(SvgdxError::MissingBoundingBox(target_el.to_string()));
             }
             let translate_x = el.get_attr("x");
             let translate_y = el.get_attr("y");
